@@ -18,6 +18,7 @@ import (
 	clmodel "github.com/osmosis-labs/osmosis/v31/x/concentrated-liquidity/model"
 	cltypes "github.com/osmosis-labs/osmosis/v31/x/concentrated-liquidity/types"
 	"github.com/osmosis-labs/osmosis/v31/x/gamm/pool-models/balancer"
+	gammtypes "github.com/osmosis-labs/osmosis/v31/x/gamm/types"
 	"github.com/osmosis-labs/osmosis/v31/x/gamm/pool-models/stableswap"
 	pmtypes "github.com/osmosis-labs/osmosis/v31/x/poolmanager/types"
 	"github.com/osmosis-labs/osmosis/v31/x/twap"
@@ -71,7 +72,7 @@ type Asset struct {
 // Op is one symbol: an action executed in the current block followed by the block boundary
 // (EndBlocker, +Dt, BeginBlocker). Dt = 0: no boundary (only used inside seeds).
 type Op struct {
-	A  string `json:"a"`            // idle | swap | toggle (drain / refill the CL pool) | prune (prune-epoch hook at the start of the block)
+	A  string `json:"a"`            // idle | swap | join1 / exit1 (single-asset join / exit of X of asset D) | join / exit (proportional, X e12 shares) | toggle (drain / refill the CL pool) | prune (prune-epoch hook at the start of the block)
 	P  int    `json:"p,omitempty"`  // pool index: 0 balancer, 1 concentrated
 	Q  int    `json:"q,omitempty"`  // swap: index of the pool's observed asset pair the swap goes along (pools with 3+ assets)
 	D  int    `json:"d,omitempty"`  // swap direction: 0 = canonical asset0 in, 1 = canonical asset1 in
@@ -82,6 +83,8 @@ type Op struct {
 
 func (o Op) String() string {
 	switch o.A {
+	case "join1", "exit1", "join", "exit":
+		return fmt.Sprintf("%s(pool%d,pair%d,asset%d,%d)+%dms%s", o.A, o.P, o.Q, o.D, o.X, o.Dt, phase(o.Ns))
 	case "swap":
 		if o.Q != 0 {
 			return fmt.Sprintf("swap(pool%d,pair%d,dir%d,%d)+%dms%s", o.P, o.Q, o.D, o.X, o.Dt, phase(o.Ns))
@@ -573,6 +576,33 @@ func (w *World) Apply(ctx sdk.Context, l *Ledger, op Op, fail func(a, s, d strin
 			out = errClass(r.Err)
 		} else {
 			l.Touch[op.P] = true
+		}
+	case "join1", "exit1", "join", "exit":
+		// liquidity operations on the classic pool (index 0): single-asset joins and exits move the price like a swap,
+		// proportional ones only by rounding; each of them must reach the end-of-block record
+		pool := w.Pools[op.P]
+		pair := w.Pairs[pool.Pairs[op.Q]]
+		den := pair.A0
+		if op.D == 1 {
+			den = pair.A1
+		}
+		var msg sdk.Msg
+		switch op.A {
+		case "join1":
+			msg = &gammtypes.MsgJoinSwapExternAmountIn{Sender: core.Acc("T").String(), PoolId: pool.ID, TokenIn: sdk.NewCoin(den, sdkInt(op.X)), ShareOutMinAmount: sdkmath.OneInt()}
+		case "exit1":
+			msg = &gammtypes.MsgExitSwapExternAmountOut{Sender: core.Acc("A").String(), PoolId: pool.ID, TokenOut: sdk.NewCoin(den, sdkInt(op.X)), ShareInMaxAmount: sdkmath.NewIntWithDecimal(1, 30)}
+		case "join":
+			msg = &gammtypes.MsgJoinPool{Sender: core.Acc("T").String(), PoolId: pool.ID, ShareOutAmount: sdkmath.NewIntWithDecimal(op.X, 12), TokenInMaxs: sdk.Coins{}}
+		case "exit":
+			msg = &gammtypes.MsgExitPool{Sender: core.Acc("A").String(), PoolId: pool.ID, ShareInAmount: sdkmath.NewIntWithDecimal(op.X, 12), TokenOutMins: sdk.Coins{}}
+		}
+		r := core.Deliver(a, ctx, msg)
+		if !r.OK() {
+			out = errClass(r.Err)
+		} else {
+			l.Touch[op.P] = true
+			w.R.Vacuity[op.A+"_accepted"]++
 		}
 	case "toggle":
 		if l.PosID != 0 {
